@@ -1340,6 +1340,9 @@ class Engine(object):
       # consistent internally as well as with the clients and database outside of the sandbox
       # (which won't see any changes in case of an error).
       log.info("Failed to apply useractions; reverting: %r", e)
+      # Value changes still pending in the calc summary (e.g. values converted by a ModifyColumn that
+      # also turns the column into a formula column) are part of what needs to be reverted.
+      self.out_actions.flush_calc_changes()
       self._undo_to_checkpoint(checkpoint)
       # Records marked for auto-removal by formulas evaluated during the failed bundle (e.g. a
       # summary row whose group was empty for a moment) must not be removed by the next bundle.
